@@ -62,6 +62,11 @@ wr := () -> int { c0 = 100; return 1 };
 it := [10, 20, 30, 40, 50, 60]~;
 rdint := (x: mut int) -> int { return *x };
 addto := (x: mut int, k: int) -> int { return x += k };
+ps := mut struct{x: int, y: int} struct{x := 1, y := 2};
+pt := mut (int, string) (1, "s");
+pf := mut (int) -> int (q: int) -> int { return q };
+pn := mut [mut int] [m2];
+pu := mut [int|string] [1, "s"];
 px := mut any 0;
 py := mut any 0;
 px = py;
@@ -98,6 +103,8 @@ pub const CELLS: &[CellSpec] = &[
     CellSpec { name: "cc", kind: Kind::CellOfInt, paths: &["cc"], init: Val::Ref(0) },
 ];
 pub const CC: usize = 9;
+/// further cells of the world that are not modelled: only their declared-type invariant is judged
+pub const EXTRA_CELLS: &[&str] = &["ps", "pt", "pf", "pn", "pu", "px", "py", "selfc", "fnlist"];
 /// index of the pseudo path "*cc" (dynamic alias: whatever int cell `cc` holds)
 pub const PATH_VIA_CC: usize = 1000;
 
@@ -135,6 +142,10 @@ pub enum OpKind {
     /// compound assignment executed inside a function on parameters (run-time path: neither
     /// operand is a constant): `apply(path, k, which)`
     ApplyViaParam(String, i64),
+    /// `p op= *q`: the right-hand side reads another cell (two atomic steps: read q, update p)
+    TransferFrom(String, usize, usize),
+    /// `*p == *q`: contents of two alias paths compared
+    CompareContents(usize, usize),
     /// the two cells px / py contain each other: rendering one walks into the other
     PairShow(u8),
     PairSet(u8, Val),
@@ -194,6 +205,8 @@ impl Op {
             OpKind::AddViaParam(k) => format!("addto({p}, {k})"),
             OpKind::Attack(text) => text.clone(),
             OpKind::ApplyViaParam(op, k) => format!("apply({p}, {k}, {})", INT_OPS.iter().position(|o| o == op).unwrap_or(0)),
+            OpKind::TransferFrom(op, c2, p2) => format!("{p} {op}= *{}", path_src(*c2, *p2)),
+            OpKind::CompareContents(c2, p2) => format!("*{} == *{}", if p.starts_with('*') { format!("({p})") } else { p.clone() }, path_src(*c2, *p2)),
             OpKind::PairShow(w) => format!("std.convert.to_string({})", if w % 2 == 0 { "px" } else { "py" }),
             OpKind::PairSet(w, v) => format!("{} = {}", if w % 2 == 0 { "px" } else { "py" }, lit(v)),
             OpKind::PairTie => "{ px = py; py = px; 0 }".to_string(),
@@ -252,6 +265,8 @@ fn kind_json(k: &OpKind) -> Value {
         OpKind::AddViaParam(k) => json!({"add_via_param": k}),
         OpKind::Attack(t) => json!({"attack": t}),
         OpKind::ApplyViaParam(op, k) => json!({"apply_via_param": [op, k]}),
+        OpKind::TransferFrom(op, c, p) => json!({"transfer_from": [op, c, p]}),
+        OpKind::CompareContents(c, p) => json!({"compare_contents": [c, p]}),
         OpKind::PairShow(w) => json!({"pair_show": w}),
         OpKind::PairSet(w, v) => json!({"pair_set": [w, val_json(v)]}),
         OpKind::PairTie => json!("pair_tie"),
@@ -284,6 +299,8 @@ fn kind_from_json(v: &Value) -> OpKind {
         "add_via_param" => OpKind::AddViaParam(x.as_i64().unwrap()),
         "attack" => OpKind::Attack(x.as_str().unwrap().to_string()),
         "apply_via_param" => OpKind::ApplyViaParam(x[0].as_str().unwrap().to_string(), x[1].as_i64().unwrap()),
+        "transfer_from" => OpKind::TransferFrom(x[0].as_str().unwrap().to_string(), x[1].as_u64().unwrap() as usize, x[2].as_u64().unwrap() as usize),
+        "compare_contents" => OpKind::CompareContents(x[0].as_u64().unwrap() as usize, x[1].as_u64().unwrap() as usize),
         "pair_show" => OpKind::PairShow(x.as_u64().unwrap() as u8),
         "pair_set" => OpKind::PairSet(x[0].as_u64().unwrap() as u8, val_from_json(&x[1])),
         o => panic!("bad op kind {o}"),
@@ -482,6 +499,21 @@ impl Model {
                 }
                 Err(e) => Expect::Error(e),
             },
+            OpKind::TransferFrom(o, c2, p2) => {
+                let src = self.resolve(*c2, *p2);
+                let v = self.heap[src].clone();
+                match compound(o, &self.heap[target], &v) {
+                    Ok(r) => {
+                        self.heap[target] = r.clone();
+                        Expect::Value(r)
+                    }
+                    Err(e) => Expect::Error(e),
+                }
+            }
+            OpKind::CompareContents(c2, p2) => {
+                let other = self.resolve(*c2, *p2);
+                Expect::Value(Val::Bool(self.heap[other] == self.heap[target]))
+            }
             OpKind::PairShow(_) => Expect::Unchecked,
             OpKind::PairSet(_, v) => Expect::Value(v.clone()),
             OpKind::PairTie => Expect::Value(Val::Int(0)),
@@ -513,6 +545,8 @@ pub struct GenCfg {
     /// concurrent mode only: `cc` may be re-pointed while other threads go through `*cc`
     /// (then only deadlock / panic / declared types are judged for the int cells)
     pub repoint: bool,
+    /// mostly `p op= *q` between the focus cells (lock-order cycles need opposing transfers)
+    pub transfer_heavy: bool,
     /// per-mille chance of a failing compound assignment
     pub fail_rate: u64,
     /// restrict to these cells (swarm); empty = all
@@ -561,6 +595,15 @@ pub fn gen_op(rng: &mut Rng, cfg: &GenCfg, unique: &mut i64) -> Op {
         let cell = if via_cc && cfg.concurrent { 0 } else { cell };
         let k = rng.below(100);
         let kind = match spec.kind {
+            Kind::Int if cfg.transfer_heavy && k < 70 => {
+                let others: Vec<usize> = [0usize, 7, 8].into_iter().filter(|c| *c != cell).collect();
+                let c2 = others[rng.below(others.len())];
+                if k < 55 {
+                    OpKind::TransferFrom(["+", "-", "&", "|", "^", "*"][rng.below(6)].into(), c2, rng.below(3))
+                } else {
+                    OpKind::CompareContents(c2, rng.below(3))
+                }
+            }
             Kind::Int => {
                 if k < 18 {
                     OpKind::Set(Val::Int(next_unique()))
@@ -615,7 +658,15 @@ pub fn gen_op(rng: &mut Rng, cfg: &GenCfg, unique: &mut i64) -> Op {
                         _ => next_unique(),
                     };
                     OpKind::ApplyViaParam(op.into(), operand)
-                } else if k < 97 && !cfg.concurrent {
+                } else if k < 96 {
+                    let c2 = [0usize, 7, 8][rng.below(3)];
+                    let p2 = rng.below(CELLS[c2].paths.len());
+                    if rng.chance(1, 2) {
+                        OpKind::TransferFrom(["+", "-", "&", "|", "^"][rng.below(5)].into(), c2, p2)
+                    } else {
+                        OpKind::CompareContents(c2, p2)
+                    }
+                } else if k < 98 && !cfg.concurrent {
                     OpKind::BumpViaRhs
                 } else {
                     let c2 = [0usize, 7, 8][rng.below(3)];
@@ -750,6 +801,22 @@ pub const ATTACKS: &[&str] = &[
     "{ w := (k: () -> mut (int|float)) -> int { k() = 0.5; return 1 }; w(g) }",
     "{ w := (x: mut mut any) -> int { (*x) = \"s\"; return 1 }; w(cc) }",
     "{ w := (x: mut mut any) -> int { x = c6; return 1 }; w(cc) }",
+    "{ w := (p: mut struct{x: int}) -> int { p = struct{x := 0}; return 1 }; w(ps) }",
+    "{ w := (p: mut struct{x: int, y: int, z: int}) -> int { return (*p).z }; w(ps) }",
+    "{ w := (p: mut struct{x: int|string, y: int}) -> int { p = struct{x := \"s\", y := 1}; return 1 }; w(ps) }",
+    "{ w := (p: mut (any, string)) -> int { p = (\"s\", \"s\"); return 1 }; w(pt) }",
+    "{ w := (p: mut (int, string)|mut (float, string)) -> int { p = (0.5, \"s\"); return 1 }; w(pt) }",
+    "{ w := (p: mut (int) -> any) -> int { p = (q: int) -> any { return \"s\" }; return 1 }; w(pf) }",
+    "{ w := (p: mut (int|string) -> int) -> int { return (*p)(\"s\") }; w(pf) }",
+    "{ w := (p: mut [mut any]) -> int { p += [c6]; return 1 }; w(pn) }",
+    "{ w := (p: mut [mut int|mut float]) -> int { p += [c1]; return 1 }; w(pn) }",
+    "{ w := (p: mut [int]) -> int { p = [1]; return 1 }; w(pu) }",
+    "{ w := (p: mut [int|string|float]) -> int { p += [0.5]; return 1 }; w(pu) }",
+    "pu += [0.5]",
+    "ps = struct{x := 1}",
+    "ps = struct{x := 1, y := \"s\"}",
+    "pt = (1, 2)",
+    "pn += [c1]",
     "a[0] = 0.5",
     "t.1 = \"s\"",
     "s.g += 0.5",
